@@ -93,6 +93,7 @@ func rulesC15(c *Ctx) {
 
 	rulesC15Round2(c)
 	c15Round3(c)
+	sharePoolPrimitivesRule(c, "C15.price")
 	c15RewardOrder(c)
 
 	// ---- (a) price shape
